@@ -314,6 +314,66 @@ subroutine k(n, a, i1, r)
 end subroutine k
 """, 'k')
 
+add('select-case-empty-body', """
+subroutine k(n, i1, s)
+  integer, intent(in) :: n, i1
+  real, intent(inout) :: s
+  select case (i1)
+  case (1)
+  case (2)
+    s = 2.0
+  case (3, 4)
+  case (5:6)
+    s = 3.0
+  case default
+    s = -1.0
+  end select
+end subroutine k
+""", 'k')
+
+add('cycle-named-outer', """
+subroutine k(n, a, t)
+  integer, intent(in) :: n
+  integer, intent(inout) :: a(n)
+  integer, intent(inout) :: t
+  integer :: i, j
+  outer: do i=1,n
+    inner: do j=1,n
+      if (a(j) == i) cycle outer
+      t = t + i*j
+    end do inner
+    t = t - 1
+  end do outer
+end subroutine k
+""", 'k')
+
+add('per-entity-dimension', """
+subroutine k(n, s)
+  integer, intent(in) :: n
+  real, intent(inout) :: s
+  real, dimension(2) :: a, b(4)
+  integer :: i
+  do i=1,4
+    b(i) = s + i
+  end do
+  a(1) = b(4)
+  a(2) = b(3)
+  s = a(1) - a(2) + b(1)
+end subroutine k
+""", 'k')
+
+add('string-quotes-and-char-length', """
+subroutine k(n, s)
+  integer, intent(in) :: n
+  real, intent(inout) :: s
+  character(len=3) :: c1, c2*8
+  c2 = 'abcdefgh'
+  c1 = 'xyz'
+  print *, @Qsay @Q@Qhi@Q@Q@Q, 'it''s', c1, c2
+  s = s + 1.0
+end subroutine k
+""".replace('@Q', chr(34)), 'k')
+
 add('named-exit-cycle(frontend-limit)', """
 subroutine k(n, a, t)
   integer, intent(in) :: n
